@@ -332,6 +332,151 @@ def rule_guard_sources(chk, fb):
             chk.ob(rid, "%s:shift#%d" % (d, n), not bad, where="%s:%s" % (b["file"], t["ln"]), detail="text predicates guarding the shift besides the coordinate parser: %s" % (sorted(set(bad)) or "none"))
 
 
+def rule_parse_wiring(chk, fb):
+    """A parsed reference keeps its `$` flags on the component they were written on: the coordinate parser returns
+    (column, row, column lock, row lock); a ColumnReference takes components 0 and 2, a RowReference 1 and 3."""
+    from mirq import Flow
+
+    r = chk.rule(
+        "C08.c.parse",
+        "parsed components are wired to their own axis: wherever a result of the coordinate parser is stored into a column (row) reference, the number comes from tuple component 0 (1) and the lock flag from component 2 (3), and from no other component",
+        floor=8,
+    )
+    want = {("ColumnReference", "set_num"): "0", ("ColumnReference", "set_is_lock"): "2", ("RowReference", "set_num"): "1", ("RowReference", "set_is_lock"): "3"}
+    for d, b in sorted(fb.mir.items()):
+        if not any(t.get("fn", "").endswith("helper::coordinate::index_from_coordinate") or t.get("fn", "").endswith("::index_from_coordinate") for _, t in fb.calls_in(b)):
+            continue
+        fl = Flow(fb, b)
+        n = {}
+        for bi, t in fl.calls():
+            f = t.get("fn", "")
+            parts = f.split("::")
+            key = (parts[-2], parts[-1]) if len(parts) >= 2 else None
+            if key not in want or len(t["args"]) < 2:
+                continue
+            at = fl.atoms(t["args"][1])
+            if not any(a[0] == "call" and a[1].endswith("index_from_coordinate") for a in at):
+                continue
+            comps = sorted(a[2] for a in at if a[0] == "field" and a[1] == "tuple" and a[2] in ("0", "1", "2", "3"))
+            i = n.get(key, 0)
+            n[key] = i + 1
+            chk.touch(d)
+            chk.ob(r, "%s:%s::%s#%d" % (d.split("::", 2)[-1] if d.count("::") > 1 else d, key[0], key[1], i), comps == [want[key]], where="%s:%s" % (b["file"], t["ln"]),
+                   detail="%s::%s takes parser component(s) %s (expected %s)" % (key[0], key[1], comps, want[key]))
+
+
+def rule_render_wiring(chk, fb):
+    """Rendering a reference puts each `$` in front of the component it locks."""
+    from cfg import CFG
+    from mirq import Flow
+
+    r = chk.rule(
+        "C08.c.render",
+        "lock flags are rendered on their own axis: in the function that renders a coordinate with `$` marks, the mark emitted before the column letters is decided by the column-lock parameter and the mark emitted after them (before the row number) by the row-lock parameter",
+        floor=2,
+    )
+    for d, b in sorted(fb.mir.items()):
+        if b["kind"] != "Fn" or fb.ty(b["locals"][0]["t"]) != "std::string::String":
+            continue
+        bools = [i for i in range(1, b["argc"] + 1) if fb.ty(b["locals"][i]["t"]) in ("&bool", "bool")]
+        colcalls = [bi for bi, t in fb.calls_in(b) if t.get("fn", "").endswith("string_from_column_index")]
+        if len(bools) != 2 or len(colcalls) != 1:
+            continue
+        # which bool is the column lock: from a caller that passes ColumnReference::get_is_lock
+        col_lock = None
+        for c in sorted({x[0] for x in fb.callers.get(d, ())}):
+            cb = fb.mir.get(c)
+            if not cb:
+                continue
+            cfl = Flow(fb, cb)
+            for _, ct in cfl.calls(lambda t: t.get("fn") == d):
+                for i in bools:
+                    if i - 1 < len(ct["args"]) and any(a[0] == "call" and a[1].endswith("ColumnReference::get_is_lock") for a in cfl.atoms(ct["args"][i - 1])):
+                        col_lock = i
+        if col_lock is None:
+            named = [i for i in bools if "col" in (b["locals"][i].get("n") or "")]
+            col_lock = named[0] if len(named) == 1 else None
+        if col_lock is None:
+            chk.ob(r, "%s:params" % d, False, where=fb.loc(d), detail="could not tell which flag parameter is the column lock")
+            continue
+        row_lock = [i for i in bools if i != col_lock][0]
+        fl = Flow(fb, b)
+        cfg = CFG(b)
+        C = colcalls[0]
+        chk.touch(d)
+        sites = []
+        for bi, bl in enumerate(b["blocks"]):
+            dollar = any(st["k"] == "assign" and st["rv"]["k"] == "use" and st["rv"]["op"].get("s") == "$" for st in bl["s"])
+            t = bl["t"]
+            if t["k"] == "call" and t.get("fn", "").split("::")[-1] in ("push", "push_str", "insert", "insert_str") and any(a.get("c") in ("'$'", "$") or a.get("s") == "$" or a.get("i") == 36 for a in t["args"]):
+                dollar = True
+            if dollar:
+                sites.append(bi)
+        seen = {"before": 0, "after": 0}
+        for n, bi in enumerate(sites):
+            deps = [x for x in cfg.control_deps_transitive(bi) if b["blocks"][x]["t"]["k"] == "switch"]
+            params = sorted({a[1] for x in deps for a in fl.atoms(b["blocks"][x]["t"]["op"]) if a[0] == "arg"})
+            pos = "before" if all(cfg.dominates(x, C) for x in deps) and deps else ("after" if all(cfg.dominates(C, x) for x in deps) and deps else "?")
+            want = col_lock if pos == "before" else (row_lock if pos == "after" else None)
+            if pos in seen:
+                seen[pos] += 1
+            chk.ob(r, "%s:mark-%s-column#%d" % (d, pos, seen.get(pos, 0)), params == [want], where="%s:%s" % (b["file"], b["blocks"][bi]["t"].get("ln")),
+                   detail="`$` %s the column letters is decided by parameter(s) %s; expected the %s-lock parameter %s" % (pos, [b["locals"][p_].get("n") or p_ for p_ in params], "column" if pos == "before" else "row", b["locals"][want].get("n") if want else "?"))
+
+
+def rule_all_kinds(chk, fb):
+    """A combination chart has several chart kinds at once: the collector of chart formulas has to visit every kind,
+    not the first one present."""
+    from cfg import CFG
+    from mirq import Flow
+    from e2 import _places_of_rv
+
+    r = chk.rule(
+        "C08.e.kinds",
+        "every chart kind is visited: in the plot area's collector of formulas (the references that follow row/column edits), each chart-kind field is read at a site that does not depend on the presence of another kind",
+        floor=10,
+    )
+    for adt, ad in sorted(fb.adts.items()):
+        if ad["kind"] != "struct":
+            continue
+        kinds = [f["name"] for f in ad["variants"][0]["fields"] if f["ty"].startswith("std::option::Option<") and f["ty"].rstrip(">").endswith("Chart")]
+        if len(kinds) < 3:
+            continue
+        collectors = [d for d, b in fb.mir.items() if b.get("self_ty") == adt and b["kind"] == "AssocFn" and "Formula" in fb.ty(b["locals"][0]["t"]) and "Vec<" in fb.ty(b["locals"][0]["t"])]
+        for c in sorted(collectors):
+            group = [c] + sorted(x for x in fb.reachable_from([c]) if x != c and fb.mir.get(x, {}).get("self_ty") == adt)
+            free = set()
+            for g in group:
+                b = fb.mir[g]
+                fl = Flow(fb, b)
+                cfg = CFG(b)
+                for bi, bl in enumerate(b["blocks"]):
+                    places = []
+                    for st in bl["s"]:
+                        if st["k"] == "assign":
+                            places += _places_of_rv(st["rv"])
+                    t = bl["t"]
+                    if t["k"] == "call":
+                        places += [a["p"] for a in t.get("args", []) if "p" in a]
+                    elif t["k"] == "switch" and "p" in t["op"]:
+                        places.append(t["op"]["p"])
+                    here = {e["f"] for p_ in places for e in p_.get("pr", []) if isinstance(e, dict) and e.get("of") == adt and e.get("f") in kinds}
+                    if not here:
+                        continue
+                    others = set()
+                    for x in cfg.control_deps_transitive(bi):
+                        tt = b["blocks"][x]["t"]
+                        if tt["k"] == "switch":
+                            others |= {a[2] for a in fl.atoms(tt["op"]) if a[0] == "field" and a[1] == adt and a[2] in kinds}
+                    for f in here:
+                        if not (others - {f}):
+                            free.add(f)
+            chk.touch(*group)
+            for f in kinds:
+                chk.ob(r, "%s::%s:%s" % (adt.split("::")[-1], c.split("::")[-1], f), f in free, where=fb.loc(c),
+                       detail="visited independently of the other kinds" if f in free else "every read of `%s` happens only when other kinds are absent: in a combination chart its series are skipped" % f)
+
+
 def run(chk, fb, tier):
     rule_kernels(chk, fb)
     rule_sheet_match(chk, fb)
@@ -340,6 +485,9 @@ def run(chk, fb, tier):
     C07.rule_fanout(chk, fb, tier, traits=(C07.T_SHEET, T_2SHEET), prefix="C08.e", with_retain=False)
     C07.rule_unconditional(chk, fb, traits=(C07.T_SHEET, T_2SHEET), prefix="C08.e", offset_args={T_2SHEET: {5, 7}})
     rule_guard_sources(chk, fb)
+    rule_parse_wiring(chk, fb)
+    rule_render_wiring(chk, fb)
+    rule_all_kinds(chk, fb)
     # C08.f termination of the edit: the tokenizer's loops make progress
     for d in C09.find_tokenizer(fb):
         C09.rule_progress(chk, fb, d)
